@@ -343,6 +343,11 @@ def units(prop):
     out.append(mk("resume", "command_line", "signals_to_torch_feat_dir", sel_resume, "resume-logic", contract_resume,
                   [("manifest", setup_resume(True)), ("no_manifest", setup_resume(False))], "rtc." + prop.lower()))
     if prop == "C09":
+        kc = [("lists_ok", setup_kaldi_construction("list2", "list2", None)), ("dicts_ok", setup_kaldi_construction("dict", "dict", None)),
+              ("empty_ok", setup_kaldi_construction("list0", "list0", None)), ("computer_fails", setup_kaldi_construction("list2", "list2", ("comp",))),
+              ("second_pre_fails", setup_kaldi_construction("list2", "list2", ("pre", 1))), ("first_post_fails", setup_kaldi_construction("list0", "list2", ("post", 0)))]
+        out.append(mk("kaldi_construction", "command_line", "compute_feats_from_kaldi_tables", sel_kaldi_construction, "object-construction",
+                      contract_kaldi_construction, kc, "rtc.c09"))
         out.append(mk("kaldi_loop", "command_line", "compute_feats_from_kaldi_tables", sel_kaldi_loop, "utterance-loop", contract_kaldi_loop,
                       [(f"pre{a}_post{b}", setup_kaldi_loop(a, b)) for a, b in ((0, 0), (2, 2), (1, 0), (0, 1))], "rtc.c09"))
         out.append(mk("kaldi_seed", "command_line", "compute_feats_from_kaldi_tables", sel_if_mentions("options.seed"), "seed-selection", contract_kaldi_seed,
@@ -1052,3 +1057,91 @@ def contract_pipeline():
         consts[cname] = _ClsRef(cname)
     return Contract(target="command_line:signals_to_torch_feat_dir", uses=["A-PYSEM", "A-TORCH"], consts=consts, handlers=handlers,
                     ensures=[("dataset_gets_the_configured_pipeline_in_order_as_lists", "OK()")])
+
+
+# ---------------------------------------------------------------------------------------------- S10 the Kaldi tool's object construction
+# compute_feats_from_kaldi_tables, the three try-blocks that turn the configuration arguments into objects: the computer, the pre-processors
+# and the post-processors are alias_factory_subclass_from_arg of their family and of the configured element, one per element IN CONFIGURED
+# ORDER (a single mapping counts as one element); a ValueError of any of these constructions ends the run with exit status 1 before any table
+# is opened.
+def sel_kaldi_construction(fn):
+    out = []
+    for s in fn.body:
+        txt = ast.unparse(s)
+        if isinstance(s, ast.Try) and "alias_factory_subclass_from_arg" in txt:
+            out.append(s)
+        elif isinstance(s, ast.Assign) and (txt.startswith("preprocessors = []") or txt.startswith("postprocessors = []")):
+            out.append(s)
+    return out if len(out) == 5 else []
+
+
+def setup_kaldi_construction(pre_form, post_form, fail_at):
+    """fail_at: None | ('comp',) | ('pre', j) | ('post', j): which construction raises ValueError"""
+    def setup(ex, st):
+        def cfgs(form, fam):
+            if form == "dict":
+                return {"name": Opaque((fam, "cfg", 0), "cfg")}, 1
+            n = 0 if form == "list0" else 2
+            return [Opaque((fam, "cfg", j), "cfg") for j in range(n)], n
+        pre_cfg, npre = cfgs(pre_form, "pre")
+        post_cfg, npost = cfgs(post_form, "post")
+        api.mk_obj(st, "options", "Options", {"computer_config": Opaque(("comp", "cfg"), "cfg"), "preprocess": pre_cfg, "postprocess": post_cfg})
+        st.env["logger"] = Opaque("logger", "logger")
+        st.ghost.update(built=[])
+        ex.ctx = dict(npre=npre, npost=npost, fail_at=fail_at)
+    return setup
+
+
+def contract_kaldi_construction():
+    def idx_of(cfg):
+        if isinstance(cfg, Opaque):
+            return cfg.term
+        if isinstance(cfg, dict):
+            return cfg["name"].term
+        return None
+
+    def h_factory(ex, st, args, kwargs, node, ev):
+        fam, cfg = args
+        famn = fam.term if isinstance(fam, Opaque) else str(fam)
+        t = idx_of(cfg)
+        st.ghost["built"] = st.ghost["built"] + [(famn, t)]
+        fa = ex.ctx["fail_at"]
+        j_ = t[2] if (t and len(t) > 2) else None
+        key = {"FrameComputer": ("comp",), "PreProcessor": ("pre", j_), "PostProcessor": ("post", j_)}.get(famn)
+        if fa is not None and key == tuple(fa):
+            ex.sym_raise("ValueError")
+        return _Made({"FrameComputer": "comp", "PreProcessor": "pre", "PostProcessor": "post"}.get(famn, "?"), cfg, "any")
+
+    def h_isinstance(ex, st, args, kwargs, node, ev):
+        obj, cls = args
+        cn = cls.term if isinstance(cls, Opaque) else None
+        if isinstance(obj, (dict, list)):
+            return cn == type(obj).__name__
+        raise Outside("isinstance form")
+
+    def ok(ev):
+        st, c = ev.st, ev.ex.ctx
+        env = st.env
+        comp, pre, post = env.get("computer"), env.get("preprocessors"), env.get("postprocessors")
+        if not (isinstance(comp, _Made) and comp.fam == "comp" and idx_of(comp.cfg) == ("comp", "cfg")):
+            return False
+        for lst, fam, n in ((pre, "pre", c["npre"]), (post, "post", c["npost"])):
+            if not isinstance(lst, list) or len(lst) != n:
+                return False
+            for j, m in enumerate(lst):
+                if not (isinstance(m, _Made) and m.fam == fam and idx_of(m.cfg) == (fam, "cfg", j)):
+                    return False
+        want = [("FrameComputer", ("comp", "cfg"))] + [("PreProcessor", ("pre", "cfg", j)) for j in range(c["npre"])] + \
+               [("PostProcessor", ("post", "cfg", j)) for j in range(c["npost"])]
+        return st.ghost["built"] == want
+
+    def exit1_ok(ev, res):
+        return ev.ex.ctx["fail_at"] is not None and res == 1
+
+    consts = {n_: Opaque(n_, "class") for n_ in ("FrameComputer", "PreProcessor", "PostProcessor", "dict", "list")}
+    consts.update({"OK": SpecFn(ok), "EXIT1_OK": SpecFn(exit1_ok), "FAILS": SpecFn(lambda ev: ev.ex.ctx["fail_at"] is not None)})
+    return Contract(
+        target="command_line:compute_feats_from_kaldi_tables", uses=["A-PYSEM"], consts=consts,
+        handlers={"alias_factory_subclass_from_arg": h_factory, "isinstance": h_isinstance, "opaque.error": _noop},
+        ensures=[("objects_built_from_the_configured_elements_in_order_or_exit_status_1", "EXIT1_OK(result) if FAILS() else (result is None and OK())")],
+    )
